@@ -4,6 +4,7 @@ package main
 // ends up in the evidence file of the property whose obligations used it.
 
 import (
+	"go/constant"
 	"fmt"
 	"go/ast"
 	"go/types"
@@ -150,7 +151,24 @@ func libAtoi(x *Exec, n *ast.CallExpr, recv *Val, recvExpr ast.Expr, st *State, 
 
 func libFormatFloat(x *Exec, n *ast.CallExpr, recv *Val, recvExpr ast.Expr, st *State, env *Env) Val {
 	v := x.defaultType(x.eval(n.Args[0], st, env))
-	x.c.trusted["strconv.FormatFloat: uninterpreted function of the value (format arguments fixed in the code base)"] = true
+	x.c.trusted["strconv.FormatFloat: uninterpreted function of the value and of its format arguments; the contracts' fmtfloat(x) is FormatFloat(x, 'f', 9, 64), the form used throughout the code base"] = true
+	// any other format, precision or bit size is a different function of the value
+	std := len(n.Args) == 4
+	want := []int64{'f', 9, 64}
+	for i := 1; i < len(n.Args) && std; i++ {
+		tv, ok := env.info.Types[n.Args[i]]
+		if !ok || tv.Value == nil {
+			std = false
+			break
+		}
+		if c, ok := constant.Int64Val(constant.ToInt(tv.Value)); !ok || c != want[i-1] {
+			std = false
+		}
+	}
+	if !std {
+		x.c.declare("gs.fmtfloat.other", "(declare-fun gs.fmtfloat.other (F64) Str)")
+		return Val{T: app("gs.fmtfloat.other", v.T), Ty: tString}
+	}
 	return Val{T: app("gs.fmtfloat", v.T), Ty: tString}
 }
 
